@@ -525,6 +525,8 @@ pub fn zoo() -> Vec<Entry> {
 	// strings and holders
 	add!(v; full: (Box<()>, Box<u8>), Vec<Box<()>>, (Rc<PhantomData<u32>>, Arc<[u16; 0]>, Vec<Vec<u8>>), [Box<()>; 4], (Box<()>, Box<()>, Box<Box<u8>>),
 		BTreeMap<u8, Box<()>>, (Arc<()>, Vec<Option<Box<u16>>>));
+	add!(v; full: BTreeSet<()>, BTreeMap<(), ()>, LinkedList<PhantomData<u64>>, VecDeque<[u32; 0]>, BinaryHeap<()>, (VecDeque<()>, u32), (BTreeSet<()>,),
+		(LinkedList<()>, u8, u16, u32), VecDeque<()>, LinkedList<()>);
 	add!(v; full: Vec<RangeInclusive<u32>>, Option<RangeInclusive<i64>>, (u8, RangeInclusive<u16>), BTreeMap<u8, RangeInclusive<u8>>, [RangeInclusive<u8>; 2],
 		Box<RangeInclusive<u128>>, Option<Range<u8>>, Vec<RangeInclusive<String>>, (Range<u32>, RangeInclusive<u32>),
 		(u8, Duration, u8), Vec<(OptionBool, Option<bool>)>, Result<Duration, RangeInclusive<u8>>);
@@ -613,10 +615,16 @@ pub fn zoo() -> Vec<Entry> {
 		BinaryHeap<u8>, BinaryHeap<u32>, BTreeSet<u8>, BTreeSet<String>, BTreeMap<u8, u8>, BTreeMap<u32, String>,
 		(Vec<u16>,), (Vec<u16>, u8), (Vec<u16>, u8, u8), (Vec<u16>, u8, u8, u8), (Vec<u16>, u8, u8, u8, u8), (Vec<u16>, u8, u8, u8, u8, u8), (Vec<u16>, u8, u8, u8, u8, u8, u8), (Vec<u16>, u8, u8, u8, u8, u8, u8, u8), (Vec<u16>, u8, u8, u8, u8, u8, u8, u8, u8), (Vec<u16>, u8, u8, u8, u8, u8, u8, u8, u8, u8), (Vec<u16>, u8, u8, u8, u8, u8, u8, u8, u8, u8, u8), (Vec<u16>, u8, u8, u8, u8, u8, u8, u8, u8, u8, u8, u8), (Vec<u16>, u8, u8, u8, u8, u8, u8, u8, u8, u8, u8, u8, u8), (Vec<u16>, u8, u8, u8, u8, u8, u8, u8, u8, u8, u8, u8, u8, u8), (Vec<u16>, u8, u8, u8, u8, u8, u8, u8, u8, u8, u8, u8, u8, u8, u8), (Vec<u16>, u8, u8, u8, u8, u8, u8, u8, u8, u8, u8, u8, u8, u8, u8, u8), (Vec<u16>, u8, u8, u8, u8, u8, u8, u8, u8, u8, u8, u8, u8, u8, u8, u8, u8), (Vec<u16>, u8, u8, u8, u8, u8, u8, u8, u8, u8, u8, u8, u8, u8, u8, u8, u8, u8),
 		(BTreeMap<u8, u8>, u32), (VecDeque<u8>, String), (LinkedList<u8>,), (BinaryHeap<u8>, bool, u8), (BTreeSet<u8>, u8),
-		(Vec<u8>, String), (Vec<u32>,));
-	let mut seen = std::collections::BTreeSet::new();
-	for e in &v {
-		assert!(seen.insert(e.name), "zoo: duplicate entry {}", e.name);
+		(Vec<u8>, String), (Vec<u32>,),
+		BTreeSet<()>, BTreeMap<(), ()>, LinkedList<PhantomData<u64>>, VecDeque<[u32; 0]>, BinaryHeap<()>, (VecDeque<()>, u32), (BTreeSet<()>,),
+		(LinkedList<()>, u8, u16, u32), VecDeque<()>, LinkedList<()>, Vec<Box<()>>);
+	#[cfg(feature = "derive")]
+	{
+		use crate::derived::*;
+		mark_len!(v; Vec<Marker>, Vec<AllSkip>, Vec<[Marker; 2]>, Vec<Named>, Vec<UnitS>);
 	}
+	// a type listed twice keeps its first entry (marks are applied by name, after all entries exist)
+	let mut seen = std::collections::BTreeSet::new();
+	v.retain(|e| seen.insert(e.name));
 	v
 }
